@@ -11,13 +11,18 @@
 #include "mockomp.hpp"
 #include "fmmrun.hpp"
 #ifndef RUNTIMEV
-#define RUNTIMEV 0        // 0 OpenMP (GOMP ABI mock), 1 Specx (mock Legacy/SpRuntime.hpp)
+#define RUNTIMEV 0        // 0 OpenMP (GOMP ABI mock), 1 Specx (mock Legacy/SpRuntime.hpp), 2 StarPU (mock starpu.h)
 #endif
 #if RUNTIMEV == 1
 #include "algorithms/smspecx/tbfsmspecxalgorithm.hpp"
 #include "algorithms/smspecx/tbfsmspecxalgorithmtsm.hpp"
 template <class R, class K, class S> using TaskAlgo = TbfSmSpecxAlgorithm<R, K, S>;
 template <class R, class K, class S> using TaskAlgoTsm = TbfSmSpecxAlgorithmTsm<R, K, S>;
+#elif RUNTIMEV == 2
+#include "algorithms/smstarpu/tbfsmstarpualgorithm.hpp"
+#include "algorithms/smstarpu/tbfsmstarpualgorithmtsm.hpp"
+template <class R, class K, class S> using TaskAlgo = TbfSmStarpuAlgorithm<R, K, S>;
+template <class R, class K, class S> using TaskAlgoTsm = TbfSmStarpuAlgorithmTsm<R, K, S>;
 #else
 #include "algorithms/openmp/tbfopenmpalgorithm.hpp"
 #include "algorithms/openmp/tbfopenmpalgorithmtsm.hpp"
@@ -45,6 +50,7 @@ struct Snapshot { std::map<std::pair<long,long>, Canon> mp, lo; std::map<long, C
 
 template <class T> static void addRanges(T& tree, long height, const std::string& pre, bool mp, bool lo, bool rhs){
     for(long l = 0; l < height; ++l){ auto& gs = tree.getCellGroupsAtLevel(l); for(size_t g = 0; g < gs.size(); ++g){
+        gRanges.push_back({gs[g].getDataPtr(), (size_t)gs[g].getDataSize(), pre + "cd." + std::to_string(l) + "." + std::to_string(g)});      // symbolic data of the cell group
         if(mp) gRanges.push_back({gs[g].getMultipolePtr(), (size_t)gs[g].getMultipoleSize(), pre + "mp." + std::to_string(l) + "." + std::to_string(g)});
         if(lo) gRanges.push_back({gs[g].getLocalPtr(), (size_t)gs[g].getLocalSize(), pre + "lo." + std::to_string(l) + "." + std::to_string(g)}); } }
     auto& pg = tree.getParticleGroups(); for(size_t g = 0; g < pg.size(); ++g){
@@ -150,7 +156,9 @@ int main(int argc, char** argv){
             gPhase = "task executor";
             if(s.mode == 0){
                 Tree tree(R.conf, R.spos, s.bs, s.ogpp != 0); R.registerCells<true,true>(tree); addRanges(tree, s.height, "", true, true, true);
+#if RUNTIMEV != 2     // (a StarPU runtime fixes its worker count at starpu_init: nothing to vary there)
                 RT.nthreads = 1 + (int)(lineNo % 2);      // the executor is built while fewer threads are available than at execution time
+#endif
                 TaskAlgo<Real, CKern, Space> algo(R.conf, s.stop);
                 RT.nthreads = sc.threads;
                 for(const Op& op : opsOf(s.hist)) if(op.kind == 0){ Replayer::Hashes a, b; R.hashTree<true,true,true>(tree, a); algo.execute(tree, op.arg); R.hashTree<true,true,true>(tree, b); R.checkWriteSet(a, b, op.arg); }
@@ -161,7 +169,9 @@ int main(int argc, char** argv){
             } else {
                 TreeTsm tree(R.conf, R.spos, R.tpos, s.bs, s.ogpp != 0); SrcView S{tree}; TgtView T{tree}; R.registerCells<true,false>(S); R.registerCells<false,true>(T);
                 addRanges(S, s.height, "s", true, false, false); addRanges(T, s.height, "t", false, true, true);
+#if RUNTIMEV != 2
                 RT.nthreads = 1 + (int)(lineNo % 2);
+#endif
                 TaskAlgoTsm<Real, Kern, Space> algo(R.conf, s.stop);
                 RT.nthreads = sc.threads;
                 for(const Op& op : opsOf(s.hist)) if(op.kind == 0) algo.execute(tree, op.arg);
@@ -169,6 +179,11 @@ int main(int argc, char** argv){
                 snapCells<true,false>(S, s.height, got); snapCells<false,true>(T, s.height, got); snapRhs(T, got);
                 for(int k = 0; k < 7; ++k) rep.eq("Counters", key, ctx<Dim>().counters[k], refCnt[k], "kernel call counts vs the sequential executor (operator " + std::to_string(k) + ")");
             }
+#if RUNTIMEV == 2
+            rep.ok("RuntimeApi", key, mockstarpu::st().error.empty(), "StarPU API misuse: " + mockstarpu::st().error);
+            rep.ok("RuntimeApi", key, mockstarpu::st().registered == mockstarpu::st().unregistered, "data handles registered (" + std::to_string(mockstarpu::st().registered) + ") and unregistered (" + std::to_string(mockstarpu::st().unregistered) + ") differ after execute()");
+            mockstarpu::st().error.clear();
+#endif
             gPhase = "comparison";
             for(auto& kw : ctx<Dim>().kernelWorkers) rep.ok("KernelPerWorker", key, kw.second.size() <= 1, "one kernel copy was used by tasks running on " + std::to_string(kw.second.size()) + " different workers (per-worker state would race)");
             if(!RT.error.empty()){ printf("HARNESS-ERROR mock runtime: %s (%s)\n", RT.error.c_str(), key.c_str()); return 2; }
